@@ -71,21 +71,21 @@ def gen_cases(rng, tier):
         else: n = 8 * rng.choice([1, 2, 3, 4, 5, 7, 8, 9, 16, 17, 32, 65])
         v = boundary(rng, name, n)
         if not name.startswith('int') and v < 0: v = -v
-        yield {'op': 'int', 'name': name, 'n': n, 'v': v, 'cr': rng.choice(CREATE_ROUTES), 'rr': rng.choice(READ_ROUTES), 'cls': rng.choice(CLASSES)}
+        yield {'op': 'int', 'name': name, 'n': n, 'v': v, 'cr': rng.choice(CREATE_ROUTES), 'rr': rng.choice(READ_ROUTES), 'cls': rng.choice(CLASSES), 'lsb0': rng.random() < 0.25}
     for _ in range(N // 3):
         k = rng.choice(['hex', 'oct', 'bin', 'bytes', 'bool', 'bits'])
-        n = 1 if k == 'bool' else rng.choice([0, 1, 2, 3, 5, 8, 16, 33, 130])
+        n = 1 if k == 'bool' else rng.choice([0, 1, 2, 3, 5, 8, 16, 31, 32, 33, 64, 65, 130, 257])
         yield {'op': 'digits', 'kind': k, 'digits': [rng.randrange({'hex': 16, 'oct': 8, 'bin': 2, 'bytes': 256, 'bool': 2, 'bits': 2}[k]) for _ in range(n)],
-               'cr': rng.choice(CREATE_ROUTES), 'rr': rng.choice(READ_ROUTES), 'cls': rng.choice(CLASSES), 'upper': rng.random() < 0.3}
+               'cr': rng.choice(CREATE_ROUTES), 'rr': rng.choice(READ_ROUTES), 'cls': rng.choice(CLASSES), 'upper': rng.random() < 0.3, 'lsb0': rng.random() < 0.25}
     for _ in range(N // 3):
         n = rng.choice([16, 32, 64]); e = rng.choice(['float', 'floatbe', 'floatle', 'floatne'])
         f = rng.choice([0.0, -0.0, 1.0, -1.5, 0.1, 1e-8, 65504.0, 65520.0, 65505.0, -65510.0, 65519.99, 3.4028234663852886e38, 3.4028235e38, -3.402823466385289e38, 3.4028235677973362e38, 3.4028235677973366e38, 1.7976931348623157e308, 1e10, 1e39, -1e39, float('inf'), float('-inf'), float('nan'), 5.9604644775390625e-08,
                         rng.uniform(-1e3, 1e3), rng.uniform(-1, 1) * 10 ** rng.randrange(-50, 50), struct.unpack('>d', struct.pack('>Q', rng.getrandbits(64)))[0]])
-        yield {'op': 'float', 'name': e, 'n': n, 'f': f.hex() if f == f else 'nan', 'cr': rng.choice(CREATE_ROUTES), 'rr': rng.choice(READ_ROUTES), 'cls': rng.choice(CLASSES)}
+        yield {'op': 'float', 'name': e, 'n': n, 'f': f.hex() if f == f else 'nan', 'cr': rng.choice(CREATE_ROUTES), 'rr': rng.choice(READ_ROUTES), 'cls': rng.choice(CLASSES), 'lsb0': rng.random() < 0.25}
     for _ in range(N // 2):
         name = rng.choice(INTS + ['hex', 'oct', 'bin', 'bytes', 'float', 'floatle'])
         n = rng.choice([16, 32, 64]) if name.startswith('float') else 8 * rng.randrange(1, 9) if name not in ('uint', 'int', 'bin', 'hex', 'oct') else rng.randrange(1, 70) * {'hex': 4, 'oct': 3}.get(name, 1)
-        yield {'op': 'pattern', 'name': name, 'bits': rand_bits(rng, n), 'cls': rng.choice(CLASSES)}
+        yield {'op': 'pattern', 'name': name, 'bits': rand_bits(rng, n), 'cls': rng.choice(CLASSES), 'lsb0': rng.random() < 0.25}
 
     # property assignment on a mutable object, an in-place edit of that object, then the same (dtype, length, value) through every creation route:
     # the routes must still agree with the canonical encoding (a setter that adopts a shared / cached store shows up here)
@@ -102,7 +102,7 @@ def gen_cases(rng, tier):
             spec = {'kind': k, 'digits': [rng.randrange({'hex': 16, 'oct': 8, 'bin': 2, 'bytes': 256, 'bits': 2}[k]) for _ in range(nd)], 'asstr': rng.random() < 0.6}
         else:
             spec = {'name': rng.choice(['float', 'floatle', 'floatne', 'floatbe']), 'n': rng.choice([16, 32, 64]), 'f': rng.choice([1.0, -2.5, 0.1, 0.0]).hex()}
-        yield dict(spec, op='adopt', cls=rng.choice(MUTABLE), edit=rng.choice(EDITS), with_len=rng.random() < 0.5)
+        yield dict(spec, op='adopt', cls=rng.choice(MUTABLE), edit=rng.choice(EDITS), with_len=rng.random() < 0.5, lsb0=rng.random() < 0.2)
 
 def kind(c): return c['op'] + ':' + c.get('name', c.get('kind', ''))
 
@@ -145,6 +145,7 @@ def cval(v):
 
 def run_impl(c):
     import bitstring
+    bitstring.options.lsb0 = bool(c.get('lsb0'))     # whole-value interpretations and the stored bits are the same in both numberings (reset by the driver)
     C = cls_of(c['cls']); op = c['op']
     if op == 'int':
         def f():
